@@ -141,6 +141,19 @@ def e2e_jobs(ctx):
         c = dict(D.BENIGN)
         c[tgt] = tx
         jobs.append(("hazard:" + sig.split(".")[1], c, (tgt, tx)))
+    return jobs + ads_jobs(ctx)
+
+
+def ads_jobs(ctx):
+    """The same API through the ads templates — only once findings/known_findings.json lists the ads request-comment defect (known: it is reported as
+    a known finding; fixed: these cases guard against its return). Until then the default run does not generate with the ads templates."""
+    from .. import main as M
+    if not any(f.get("signature") == D.ADS_SIGNATURE for f in M.load_findings()) and os.environ.get("GV_C20_ADS") != "1":
+        return []
+    jobs = [("ads:benign", dict(D.BENIGN), None)]
+    for tgt in ("request", "stream_request"):
+        for tx in ['Fetch by name, e.g. """things/1""" please.', "Path C:\\"] + ([] if ctx.tier == "quick" else ['five """"" quotes', "three \\\\\\"]):
+            jobs.append(("ads:hazard", {**D.BENIGN, tgt: tx}, (tgt, tx)))
     return jobs
 
 
@@ -156,7 +169,7 @@ def run_e2e(ctx, jobs=None, conventional=None):
     jobs = e2e_jobs(ctx) if jobs is None else jobs
     reqs = []
     for kind, comments, hazard in jobs:
-        reqs.append((kind, comments, hazard, D.build(comments)))
+        reqs.append((kind, comments, hazard, D.build(comments, ads=kind.startswith("ads:"))))
     nconv = ctx.n(1, 8) if conventional is None else conventional
     for i in range(nconv):
         r = env.rng("C20-e2e-conv", i)
@@ -174,6 +187,8 @@ def run_e2e(ctx, jobs=None, conventional=None):
             ctx.violation(f"generation failed for a {kind} API: {o['error'][-300:]}", case, None)
             continue
         sig = D.hazard_signature(*hazard) if hazard else None
+        if kind.startswith("ads:") and hazard and hazard[0] in ("request", "stream_request"):
+            sig = D.ADS_SIGNATURE
         pf = D.parse_failures(o["files"])
         if pf and comments is None:
             # an API without any comment: whatever fails to parse is not C20's subject (e.g. a proto package without a namespace
@@ -185,7 +200,7 @@ def run_e2e(ctx, jobs=None, conventional=None):
             where = f" (comment {hazard[1]!r} on the {hazard[0]})" if hazard else ""
             ctx.violation(f"emitted module does not parse{where}: {pf[0][0]}: {pf[0][1]}; {len(pf)} file(s)", {**case, "parse_failures": pf[:6]}, sig)
         elif comments is not None:
-            for tgt, detail in D.intact(comments, o["files"]):
+            for tgt, detail in D.intact(comments, o["files"], skip=D.ADS_SKIP if kind.startswith("ads:") else ()):
                 ctx.violation(f"the {tgt} comment does not reach its docstring intact: {detail}", {**case, "target": tgt},
                               sig if hazard and hazard[0] == tgt else None)
         # every call the templates made, as further cases for the pure oracles and T2
